@@ -136,8 +136,9 @@ def swallowed_identity_errors(ctx):
 
 def identity_table(ctx, rid):
     """set_owner_process evaluated over configured (uid, gid, initgroups) x the process's current (uid, gid): the ordered list
-    of identity system calls it makes. Required: with a group configured, initgroups(user, gid) whenever initgroups is on --
-    also when the primary group already is the configured one (the *supplementary* groups are still the master's); setgid(gid)
+    of identity system calls it makes. Required: initgroups(user, gid) whenever initgroups is on -- also when the primary group
+    already is the configured one, and when no group is configured at all (gid 0: the *supplementary* groups are still the
+    master's); setgid(gid)
     whenever the primary group differs; setuid(uid) whenever a different user is configured; every group call before setuid;
     nothing when nothing is configured."""
     repo = ctx.repo
@@ -179,14 +180,17 @@ def identity_table(ctx, rid):
                             tr = [(q.split(".")[-1], v) for q, v in o.env.get(Explorer.TRACE, ())]
                             names_ = [q for q, v in tr]
                             problems = []
-                            if gid and init and ("initgroups", gid) not in tr:
-                                problems.append("os.initgroups(user, %s) is not called: the worker keeps the master's supplementary groups" % gid)
+                            if init and ("initgroups", gid) not in tr:
+                                problems.append("os.initgroups(user, %s) is not called%s: the worker keeps the master's supplementary groups" % (
+                                    gid, "" if gid else " (only the user is configured: cfg.gid is the master's own gid, 0 for root -- the group need not change, the group *list* must)"))
+                            if not init and "initgroups" in names_:
+                                problems.append("initgroups is called although the setting is off")
                             if gid and gid != cg and not any(q in ("setgid", "setregid", "setresgid") and v == gid for q, v in tr):
                                 problems.append("os.setgid(%s) is not called: the worker keeps the master's primary group" % gid)
                             if uid and uid != cu and not any(q in ("setuid", "setreuid", "setresuid") and v == uid for q, v in tr):
                                 problems.append("os.setuid(%s) is not called: the worker keeps running as the master's user" % uid)
-                            if not gid and any(q in ("setgid", "initgroups", "setgroups", "setregid", "setresgid") for q in names_):
-                                problems.append("a group call is made although no group is configured")
+                            if not gid and any(q in ("setgid", "setgroups", "setregid", "setresgid") for q in names_):
+                                problems.append("the primary group is changed although no group is configured")
                             if not uid and any(q in ("setuid", "setreuid", "setresuid") for q in names_):
                                 problems.append("setuid is called although no user is configured")
                             if any(v not in (uid, gid) for q, v in tr):
